@@ -191,7 +191,7 @@ func writeCases(dir, area, imports, caseType string, cases []string, shardSize i
 		if hi > len(cases) {
 			hi = len(cases)
 		}
-		name := fmt.Sprintf("cases_%s_%d.v", area, k)
+		name := fmt.Sprintf("cases_%s_%d.v", strings.ReplaceAll(area, "-", "_"), k)
 		var sb strings.Builder
 		sb.WriteString("From Coq Require Import String.\nFrom LS Require Import Base.Hex.\n")
 		sb.WriteString(imports)
